@@ -67,7 +67,14 @@ func c18Judge(env *hx.Env, files hx.Files, m c18Meta) hx.Verdict {
 	} else if r.Res.Stdout != "" {
 		return hx.Failf("C18|stdout-without-print|"+flagClass(sc), "%s: stdout not empty without -print:\n%s", cls, tail(r.Res.Stdout, 600))
 	}
-	if sc.Log {
+	if r.LogAbs == "" {
+		// the documented log path is the output path itself: the log must be some other *.log file next to it
+		if n := len(r.otherLogs()); sc.Log && n == 0 {
+			return hx.Failf("C18|log-missing|"+flagClass(sc), "%s: -log: no log file next to %s; tree changes: %v", cls, r.rel(r.OutAbs), diffList(r))
+		} else if !sc.Log && n > 0 {
+			return hx.Failf("C18|log-without-flag|"+flagClass(sc), "%s: log written without -log", cls)
+		}
+	} else if sc.Log {
 		if !hx.Exists(r.LogAbs) {
 			return hx.Failf("C18|log-missing|"+flagClass(sc), "%s: -log: no log at %s; tree changes: %v", cls, r.rel(r.LogAbs), diffList(r))
 		}
@@ -120,7 +127,7 @@ func plainBaseline(env *hx.Env, files hx.Files, input string) (string, bool, *cl
 func TestC18(t *testing.T) {
 	env, rec := start(t, "C18", "exploration",
 		"for each accepted input (rapid-generated Engine P programs, also under a differently named setup file and a directory with dots): complete enumeration of the 2^4 flag sets {-out,-dry,-print,-log} x 7 input spellings "+
-			"{relative from module root, absolute, ./relative, bare name from the package directory, GOFILE only (both cwds), GOFILE set to a bogus value plus argument}, plus -out variants (absolute, nested existing directory) and the no-input case. "+
+			"{relative from module root, absolute, ./relative, bare name from the package directory, GOFILE only (both cwds), GOFILE set to a bogus value plus argument}, plus -out variants (absolute, nested existing directory, relative to another working directory, a name ending in .log) and output paths that already hold something (other content, identical content, broken Go, a longer earlier result), and the no-input case. "+
 			"Oracle: expected paths computed from the documented rule; bytes of a plain run are the reference; stdout equals the code (optionally one extra newline) with -print and is empty without. "+
 			"Non-trivial: any flag set other than the empty one or any spelling other than relative-from-root; combinations are distinct by construction per input.")
 	defer rec.Done()
@@ -221,10 +228,15 @@ func TestC18(t *testing.T) {
 				}
 			}
 		}
-		// further -out targets
-		for _, ok := range []string{"abs", "nested-dir", "cwd", "cwd"} {
+		// further -out targets, and outputs that replace something: whatever the path held before, the file holds exactly
+		// the code afterwards (and stdout the same code with -print)
+		for _, ok := range []string{"abs", "nested-dir", "cwd", "cwd", "log-ext", "log-ext", "", "same-dir"} {
 			for _, dry := range []bool{false, true} {
 				sc := cliScenario{Input: input, Spelling: rapid.SampledFrom(c18Spellings).Draw(rt, "sp"), OutKind: ok, Dry: dry, Print: rapid.Bool().Draw(rt, "print"), Log: rapid.Bool().Draw(rt, "log"), Pre: "absent"}
+				if !dry && (ok == "" || ok == "same-dir" || ok == "abs") {
+					sc.Pre = rapid.SampledFrom([]string{"other", "identical", "stale-broken", "longer", "longer"}).Draw(rt, "pre")
+					rec.Class("pre:" + sc.Pre)
+				}
 				m := c18Meta{Scenario: sc, Baseline: base}
 				v := c18Judge(env, files, m)
 				rec.Eval()
